@@ -383,6 +383,29 @@ fn case_cprune(r: &mut Rng, id: usize, out: &mut String) {
     if r.chance(1, 3) {
         f.infeasible_elimination();
     }
+    // one case in four: the receiver has a longer history -- an earlier PRUNED composition, after which the caller
+    // replaced one decision below the root (replace_node: the subtree goes, a new node with a fresh state arrives, most
+    // often under the index just freed) and gave it two terminals.  Everything a later pruning may rely on is still
+    // valid; anything that remembers the tree of the first composition by node index is not.
+    if !targeted && r.chance(1, 4) {
+        let snapshot = f.clone();
+        let m0 = f.terminals().map(|x| x.aff.outdim()).next().unwrap();
+        let g0 = if r.chance(1, 2) { schema::partial_ReLU(m0, r.below(m0)) } else { schema::partial_hard_tanh(m0, r.below(m0), -1.0, 1.0) };
+        let ok = catch(AssertUnwindSafe(|| f.compose::<true, false>(&g0))).is_ok();
+        let root = f.tree.get_root_idx();
+        let decs: Vec<usize> = f.tree.decision_indices().filter(|d| *d != root).collect();
+        if ok && !decs.is_empty() {
+            let d = decs[r.below(decs.len())];
+            let n = f.in_dim();
+            let mo = f.terminals().map(|x| x.aff.outdim()).next().unwrap();
+            let idx = f.replace_node(d, gen_dec(r, 1, n, 4)).unwrap();
+            for l in 0..2 {
+                f.add_child_node(idx, l, gen_aff(r, mo, n, 4)).unwrap();
+            }
+        } else if !ok {
+            f = snapshot;
+        }
+    }
     let m = f.terminals().map(|x| x.aff.outdim()).next().unwrap();
     let k = 1 + r.below(2);
     let cfg = TreeCfg { depth: r.below(3), partial_pct: if r.chance(1, 2) { 0 } else { 25 }, early_leaf_pct: 20, maxk: 4, term_pool: 0 };
@@ -694,7 +717,12 @@ fn fault_of(kind: usize) -> Fault {
 fn case_fault(r: &mut Rng, id: usize, thorough: bool, out: &mut String) {
     let compose_mode = r.chance(1, 3);
     if compose_mode {
-        let f = if r.chance(1, 2) { gen_pipeline(r) } else { gen_elim_tree(r, false) };
+        let mut f = if r.chance(1, 2) { gen_pipeline(r) } else { gen_elim_tree(r, false) };
+        // half of the receivers come straight out of an elimination: their terminals hold witnesses, which the pruned
+        // composition consults before it asks the LP (a fault then hits an edge whose parent's witnesses are all cut off)
+        if r.chance(1, 2) {
+            let _ = catch(AssertUnwindSafe(|| f.infeasible_elimination()));
+        }
         let m = f.terminals().map(|x| x.aff.outdim()).next().unwrap();
         let g: AffTree<2> = if m >= 2 && r.chance(1, 2) { schema::argmax(m) } else { schema::partial_ReLU(m, r.below(m)) };
         let mut h0 = f.clone();
@@ -919,7 +947,16 @@ fn case_kfault(r: &mut Rng, id: usize, thorough: bool, out: &mut String) {
 /// remove_axes on a tree with a warm cache: the states must be reset (a witness of the old space is not a witness of
 /// the projected tree); afterwards an elimination on the projected tree must again leave only sound caches
 fn case_remove_axes(r: &mut Rng, id: usize, out: &mut String) {
-    let mut t = if r.chance(1, 2) { gen_pipeline(r) } else { gen_elim_tree(r, false) };
+    // a third of the trees have axis-parallel predicates (exact zeros in most columns): removing an axis then leaves
+    // some path conditions untouched and changes others -- every cached state has to go all the same
+    let mut t = match r.below(3) {
+        0 => {
+            let n = 2 + r.below(2);
+            gen_axis_tree(r, n)
+        }
+        1 => gen_pipeline(r),
+        _ => gen_elim_tree(r, false),
+    };
     let n = t.in_dim();
     if r.chance(3, 4) {
         t.infeasible_elimination();
